@@ -14,6 +14,8 @@ func runC10(c *Ctx, r *Report) {
 	r.Rule("C10.R2", "transient state is restored on the error path: from the first write of such a field every path to a return passes the restoring write")
 	r.Rule("C10.R4", "a reset is independent of what it discards: the value State.Reset writes into a field is not computed from any field that Reset itself rewrites (the session scope comes from a field set at creation, not from the current scope)")
 	r.Rule("C10.R5", "recovery touches nothing else: every field State.Reset writes is one of the transient fields derived for R1 (swapped around evaluation); session state (macro store, cache, extensions, limits) is not reset by a failed input")
+	r.Rule("C10.R7", "the running scope is put back: a method of the running State (Reset excepted) that stores into its env stores into it again on every path to a return")
+	c.checkScopeWritesAreRestored(r, "C10.R7")
 	r.Rule("C10.R6", "a timeout leaves nothing behind: the arm of evalInternal taken when the input's context has expired, and the functions of package eval it calls, store into no field of the State")
 	c.checkExpiredContextWritesNothing(r, "C10.R6")
 	r.Rule("C10.R3", "fresh context per input: EvalOne installs a new context and defers its cancel before evaluating (shared with C09.R5)")
@@ -433,4 +435,59 @@ func (c *Ctx) checkExpiredContextWritesNothing(r *Report, rule string) {
 	sort.Strings(writes)
 	r.Check(len(writes) == 0, rule, ssaFuncName(ev), "the expired-context arm stores nothing in the State", c.Pos(arm.Instrs[0].Pos()),
 		"reporting a timeout writes a field of the long-lived State ("+strings.Join(writes, "; ")+"): what one failing input leaves there is read by the next one (an error built once is what every later timeout reports, stack included)")
+}
+
+// checkScopeWritesAreRestored: rule C10.R7.
+//
+// The running scope (State.env) is session state: an input that fails must leave it where it was. A method of
+// the running State that stores into its own env (applyFunction entering the callee's frame) stores into it
+// again on every path to a return; Reset (the recovery itself) and stores into a state created in the same
+// function (the macro state) are not concerned. A store "for the error message" on an error path that returns
+// without a restore leaves the session inside the callee's frame, whatever the caller was about to save.
+func (c *Ctx) checkScopeWritesAreRestored(r *Report, rule string) {
+	stateT := c.TypeNamed("eval", "State")
+	resets := map[*ssa.Function]bool{}
+	for _, f := range c.resetFunctions() {
+		resets[f] = true
+	}
+	n := 0
+	for _, fn := range c.ModuleSSAFuncs() {
+		if fn.Pkg == nil || shortPkg(fn.Pkg.Pkg) != "eval" || resets[fn] || fn.Signature.Recv() == nil || len(fn.Params) == 0 {
+			continue
+		}
+		isEnvStore := func(in ssa.Instruction) bool {
+			st, ok := in.(*ssa.Store)
+			if !ok || !isFieldAddrOf(st.Addr, stateT, "env") {
+				return false
+			}
+			return st.Addr.(*ssa.FieldAddr).X == ssa.Value(fn.Params[0]) // the running state itself
+		}
+		k := 0
+		eachInstr(fn, func(in ssa.Instruction) {
+			if !isEnvStore(in) {
+				return
+			}
+			// a restoring store has nothing to be restored after it: only stores that some later store can follow, or
+			// that reach a return without one, matter. Check: from this store, every path to a return passes another env store,
+			// unless this store itself is preceded by one on every path from entry (it is the restore).
+			if mustPassFromEntryTo(fn, func(x ssa.Instruction) bool { return x != in && isEnvStore(x) }, in) {
+				return // the restore of an earlier write
+			}
+			n++
+			k++
+			bad := mustPassBeforeExit(in, func(x ssa.Instruction) bool { return x != in && isEnvStore(x) })
+			desc := "a write of the running scope is followed by its restore on every path"
+			if k > 1 {
+				desc += " #" + itoa(k)
+			}
+			if bad != nil {
+				r.Fail(rule, ssaFuncName(fn), desc, c.Pos(in.Pos()), "State.env is overwritten and a path returns without writing it again: a failing input (an error return is enough, no panic needed) leaves the session inside another frame - `self`, info.stack and the scope new globals land in differ for every later input", c.tracePath(bad)...)
+			} else {
+				r.Ok(rule, ssaFuncName(fn), desc, c.Pos(in.Pos()))
+			}
+		})
+	}
+	if n == 0 {
+		r.Undecided("%s: no write of State.env by a method of the running state found (applyFunction expected)", rule)
+	}
 }
